@@ -28,7 +28,7 @@ GROUPS = {
     'G3': dict(cls='Model', primary='assets', index=['asset_ids', 'asset_names'],
                counters=['next_id'], props=('C05',)),
     'G4': dict(cls='Model', primary='associations', index=['_type_to_association'],
-               counters=[], props=('C05',)),
+               counters=[], props=('C05', 'C06')),
 }
 RESET_PROPS = {'AttackGraph': ('C09',), 'LanguageGraph': ('C15', 'C03'), 'Model': ('C05',)}
 
